@@ -117,7 +117,7 @@ def w2(ctx):
         recv_mut = b.argc >= 1 and b.local_ty(1).startswith("&mut egraph::EGraph<")
         ctx.check(recv_mut, "setter-caller-is-mut:" + C.fkey(b), "%s (calls the union-find setter) takes &mut EGraph" % C.short(b.id),
                   "%s calls the union-find setter but takes %s — a read-only API can rewrite the union-find" % (C.short(b.id), b.local_ty(1) if b.argc else "no receiver"), where_of(b))
-    ctx.floor("callers of the union-find setter", n, 3)
+    ctx.floor("callers of the union-find setter", n, 2)
     for sid in ufs:
         sb = crate.bodies[sid]
         ctx.check(not (sb.vis == "pub" and sb.reachable), "setter-not-public:" + C.fkey(sb), "the union-find setter is not public API",
